@@ -1047,6 +1047,38 @@ def t_sweep(ctx, lo, hi, rounds):
                         'tables with rotating boundary values')
 
 
+def t_lookalikes(ctx, lo, hi):
+    """every (class, version) pair with String fields x every look-alike
+    text (ids, numbers, keys, JSON ... in non-canonical spellings) in all of
+    its String fields at once: carried verbatim."""
+    vs = supported()[lo:hi]
+    n = 0
+    for d, s, cls, v in pairs_for(vs):
+        if cls.__name__ in HAND:
+            continue
+        try:
+            fl = fields_of(cls, v)
+        except Exception:
+            continue
+        if not any(sp == 'String' for _n, _t, sp in fl):
+            continue
+        for r, text in enumerate(T2.LOOKALIKES):
+            vals = {}
+            for i, (name, t, sp) in enumerate(fl):
+                if sp == 'String':
+                    vals[name] = text
+                else:
+                    b = boundaries(sp, v)
+                    vals[name] = b[(r + i) % len(b)]
+            case = {'direction': d, 'state': s, 'cls': cls.__name__,
+                    'version': v, 'values': vals}
+            defn_case(ctx, case)
+            n += 1
+            if n % 2500 == 1:
+                ctx.sample(case, 'defn')
+    ctx.label('lookalike_task')
+
+
 def t_hand(ctx, lo, hi, n):
     vs = supported()[lo:hi]
     pairs = [(d, s, cls, v) for d, s, cls, v in pairs_for(vs)
@@ -1172,6 +1204,9 @@ def tasks(tier):
         tl.append(('sweep_%d' % i, t_sweep,
                    dict(lo=n * i // nsh, hi=n * (i + 1) // nsh,
                         rounds=3 if q else 8)))
+    for i in range(8):
+        tl.append(('lookalikes_%d' % i, t_lookalikes,
+                   dict(lo=n * i // 8, hi=n * (i + 1) // 8)))
     for i in range(6 if q else 12):
         k = 6 if q else 12
         tl.append(('hand_%d' % i, t_hand,
